@@ -355,8 +355,17 @@ def main():
             oreqs = list(om.gen("quick", orng))
             if not oreqs:
                 continue
-            step = max(1, len(oreqs) // n)
-            oreqs = oreqs[::step][:n]
+            # stratified by operation: every kind of request of the neighbour is represented
+            # (at least 120 of each, evenly spaced), the rest of the budget in proportion
+            groups = {}
+            for r in oreqs:
+                groups.setdefault(r.split(" ")[0], []).append(r)
+            picked = []
+            for opname, rs in groups.items():
+                want = max(min(len(rs), 120), n * len(rs) // len(oreqs))
+                st = max(1, len(rs) // want)
+                picked += rs[::st][:want]
+            oreqs = picked
             o_impl_req = getattr(om, "impl_request", lambda r: r)
             o_model_req = getattr(om, "model_request", lambda r: r)
             o_impl_only = getattr(om, "impl_only", lambda r: False)
